@@ -9,7 +9,7 @@ the search path, or would exceed the depth limit rejects the parse with exactly 
 includer's file and line, and leaves the stack of open sources as it was. -/
 theorem C13_errors (pe : PEnv) (m : PM) (f : Frame) (rest : List Frame) (name : Bytes) (hfr : m.frames = f :: rest)
     (hbad : m.srcs.length - 1 ≥ pe.maxInc ∨ resolveFile pe name = none ∨
-      (∃ xf, resolveFile pe name = some xf ∧ ∀ c, pe.fs xf ≠ some (.reg, c))) :
+      (∃ xf, resolveFile pe name = some xf ∧ openFile pe xf = none)) :
     (doInclude pe m name).status = .rejected ∧ (doInclude pe m name).srcs = m.srcs ∧
     ∃ cls, (doInclude pe m name).diags = ⟨f.cfg.info.filename, f.cfg.info.line, cls⟩ :: m.diags := by
   unfold doInclude
@@ -20,20 +20,13 @@ theorem C13_errors (pe : PEnv) (m : PM) (f : Frame) (rest : List Frame) (name : 
     rcases hbad with h | h | ⟨xf, hx, hnot⟩
     · exact absurd h hd
     · simp [h, PM.rejectWith, PM.reject, PM.addDiags, Frame.diag, collapse]
-    · simp only [hx]
-      cases hfs : pe.fs xf with
-      | none => simp [PM.rejectWith, PM.reject, PM.addDiags, Frame.diag, collapse]
-      | some e =>
-        obtain ⟨k, c⟩ := e
-        cases k with
-        | reg => exact absurd hfs (hnot c)
-        | dir => simp [PM.rejectWith, PM.reject, PM.addDiags, Frame.diag, collapse]
+    · simp [hx, hnot, PM.rejectWith, PM.reject, PM.addDiags, Frame.diag, collapse]
 
 /-- **C13 (entering).** A good target becomes the current source; the includer's file name and line
 are saved, the context continues at line 1 of the included file. -/
 theorem C13_enter (pe : PEnv) (m : PM) (f : Frame) (rest : List Frame) (name xf content : Bytes)
     (hfr : m.frames = f :: rest) (hd : ¬ (m.srcs.length - 1 ≥ pe.maxInc))
-    (hres : resolveFile pe name = some xf) (hfs : pe.fs xf = some (.reg, content)) :
+    (hres : resolveFile pe name = some xf) (hfs : openFile pe xf = some content) :
     (doInclude pe m name).status = m.status ∧
     (doInclude pe m name).srcs = { rest := content, savedFile := f.cfg.info.filename, savedLine := f.cfg.info.line } :: m.srcs ∧
     ∃ f', (doInclude pe m name).frames = f' :: rest ∧ f'.cfg.info.filename = some xf ∧ f'.cfg.info.line = 1 ∧
